@@ -38,7 +38,7 @@ template <typename T, typename D> struct SelectCallback<T, false, D> { using Typ
 template <typename T, typename ...Args>
 struct HasFunctionGetEvent
 {
-	template <typename C> static std::true_type test(decltype(C::getEvent(std::declval<Args>()...)) *);
+	template <typename C> static std::true_type test(typename std::add_pointer<decltype(C::getEvent(std::declval<Args>()...))>::type);
 	template <typename C> static std::false_type test(...);
 	
 	enum { value = !! decltype(test<T>(0))() };
